@@ -609,6 +609,8 @@ func floatLayers(tier string) []Layer {
 							z := new(big.Float).SetPrec(p).SetInt64(-77) // receiver holding garbage
 							if p == 0 {
 								z = nil
+							} else if e%2 == 0 {
+								z.SetInf(neg) // receiver holding an infinity
 							}
 							pv, _ := protect(func() { got = x.Float(z) })
 							key := fmt.Sprintf("Float x=%s@exp%d prec=%d", &xo, e, p)
@@ -656,7 +658,7 @@ func floatLayers(tier string) []Layer {
 				if u < 4 {
 					sp := mkSpecial([]int8{fZero, fInf}[u%2], u >= 2, 9, ToZero)
 					x := sp.Build()
-					for _, z := range []*big.Float{nil, new(big.Float).SetPrec(30).SetInt64(5)} {
+					for _, z := range []*big.Float{nil, new(big.Float).SetPrec(30).SetInt64(5), new(big.Float).SetPrec(30).SetInf(false), new(big.Float).SetPrec(30).SetInf(true)} {
 						if c.Skip() {
 							continue
 						}
